@@ -11,9 +11,9 @@ CONSTANTS
   EpsSet <- EpsB
   Tests = {"span", "max_diff"}
   Periods = {1}
-  NumGadgets = 24
+  NumGadgets = 6
   MaxScale = 4194304
-  Bug = "none"
+  Bug = "threshold_no_gamma"
   MaxIter = 22
 INVARIANT WellFormedInv
 INVARIANT VINearOptimal
